@@ -176,58 +176,58 @@ func indexCovered(f *ssa.Function, x ssa.Value, k int64, blk *ssa.BasicBlock) (s
 			}
 		}
 	}
-	// (2) dominating length tests
+	// (2) dominating length tests (also as a conjunct / disjunct of a short-circuit condition)
 	for _, b := range f.Blocks {
 		iff, ok := b.Instrs[len(b.Instrs)-1].(*ssa.If)
 		if !ok {
 			continue
 		}
-		bo, ok := iff.Cond.(*ssa.BinOp)
-		if !ok {
-			continue
-		}
-		var lenArg ssa.Value
-		var cst *ssa.Const
-		op := bo.Op
-		if l, ok := lenOperand(bo.X); ok {
-			if kc, ok := bo.Y.(*ssa.Const); ok && isIntConst(kc) {
-				lenArg, cst = l, kc
+		for _, cf := range condFacts(iff.Cond, 0) {
+			bo := cf.bo
+			var lenArg ssa.Value
+			var cst *ssa.Const
+			op := bo.Op
+			if l, ok := lenOperand(bo.X); ok {
+				if kc, ok := bo.Y.(*ssa.Const); ok && isIntConst(kc) {
+					lenArg, cst = l, kc
+				}
+			} else if l, ok := lenOperand(bo.Y); ok {
+				if kc, ok := bo.X.(*ssa.Const); ok && isIntConst(kc) {
+					lenArg, cst = l, kc
+					op = flipOp(op)
+				}
 			}
-		} else if l, ok := lenOperand(bo.Y); ok {
-			if kc, ok := bo.X.(*ssa.Const); ok && isIntConst(kc) {
-				lenArg, cst = l, kc
-				op = flipOp(op)
+			if lenArg == nil || !sameSlice(lenArg) {
+				continue
 			}
-		}
-		if lenArg == nil || !sameSlice(lenArg) {
-			continue
-		}
-		cv := cst.Int64()
-		// lower bound of len on the true / false successor
-		lbT, lbF := int64(-1), int64(-1)
-		switch op {
-		case token.EQL:
-			lbT = cv
-			if cv == 0 {
-				lbF = 1 // a length that is not 0 is at least 1
+			cv := cst.Int64()
+			// lower bound of len when the comparison holds / does not hold
+			lbT, lbF := int64(-1), int64(-1)
+			switch op {
+			case token.EQL:
+				lbT = cv
+				if cv == 0 {
+					lbF = 1 // a length that is not 0 is at least 1
+				}
+			case token.NEQ:
+				lbF = cv
+				if cv == 0 {
+					lbT = 1
+				}
+			case token.LSS:
+				lbF = cv
+			case token.LEQ:
+				lbF = cv + 1
+			case token.GTR:
+				lbT = cv + 1
+			case token.GEQ:
+				lbT = cv
 			}
-		case token.NEQ:
-			lbF = cv
-			if cv == 0 {
-				lbT = 1
+			if lbT > k && cf.trueEdge >= 0 && edgesDominate(f, []cfgEdge{{b, cf.trueEdge}}, blk) {
+				return fmt.Sprintf("length test `len %s %d` (holds) dominates", op, cv), true
 			}
-		case token.LSS:
-			lbF = cv
-		case token.LEQ:
-			lbF = cv + 1
-		case token.GTR:
-			lbT = cv + 1
-		case token.GEQ:
-			lbT = cv
-		}
-		for i, lb := range []int64{lbT, lbF} {
-			if lb > k && edgesDominate(f, []cfgEdge{{b, i}}, blk) {
-				return fmt.Sprintf("length test `len %s %d` (%s branch) dominates", op, cv, []string{"true", "false"}[i]), true
+			if lbF > k && cf.falseEdge >= 0 && edgesDominate(f, []cfgEdge{{b, cf.falseEdge}}, blk) {
+				return fmt.Sprintf("length test `len %s %d` (fails) dominates", op, cv), true
 			}
 		}
 	}
@@ -1619,4 +1619,86 @@ func countsByOne(v ssa.Value) bool {
 		return okInit && okStep
 	}
 	return false
+}
+
+
+// condFact: a comparison that is known to hold on one successor of an If and/or known to fail
+// on the other. `if a && b` (lowered by go/ssa to a phi of false … b) makes a and b hold on the
+// true successor; `if a || b` makes both fail on the false successor; `!c` swaps.
+type condFact struct {
+	bo                  *ssa.BinOp
+	trueEdge, falseEdge int // successor index where bo holds / fails; −1 when unknown
+}
+
+func condFacts(cond ssa.Value, depth int) []condFact {
+	if depth > 6 {
+		return nil
+	}
+	switch x := cond.(type) {
+	case *ssa.BinOp:
+		return []condFact{{x, 0, 1}}
+	case *ssa.UnOp:
+		if x.Op == token.NOT {
+			var out []condFact
+			for _, cf := range condFacts(x.X, depth+1) {
+				out = append(out, condFact{cf.bo, cf.falseEdge, cf.trueEdge})
+			}
+			return out
+		}
+	case *ssa.Phi:
+		allFalse, allTrue := true, true
+		var rest []ssa.Value
+		for _, e := range x.Edges {
+			if k, ok := e.(*ssa.Const); ok && k.Value != nil {
+				if k.Value.String() == "false" {
+					allTrue = false
+					continue
+				}
+				if k.Value.String() == "true" {
+					allFalse = false
+					continue
+				}
+			}
+			rest = append(rest, e)
+		}
+		// the conjuncts / disjuncts evaluated before the last one are the conditions of the Ifs
+		// that lead into the phi's block; they hold (fail) as well
+		var out []condFact
+		if allFalse && len(rest) >= 1 { // a && b && …
+			for _, e := range rest {
+				for _, cf := range condFacts(e, depth+1) {
+					out = append(out, condFact{cf.bo, cf.trueEdge, -1})
+				}
+			}
+			for i, e := range x.Edges {
+				if k, ok := e.(*ssa.Const); ok && k.Value != nil && k.Value.String() == "false" {
+					pred := x.Block().Preds[i]
+					if iff, ok := pred.Instrs[len(pred.Instrs)-1].(*ssa.If); ok {
+						for _, cf := range condFacts(iff.Cond, depth+1) {
+							out = append(out, condFact{cf.bo, cf.trueEdge, -1})
+						}
+					}
+				}
+			}
+		}
+		if allTrue && len(rest) >= 1 { // a || b || …
+			for _, e := range rest {
+				for _, cf := range condFacts(e, depth+1) {
+					out = append(out, condFact{cf.bo, -1, cf.falseEdge})
+				}
+			}
+			for i, e := range x.Edges {
+				if k, ok := e.(*ssa.Const); ok && k.Value != nil && k.Value.String() == "true" {
+					pred := x.Block().Preds[i]
+					if iff, ok := pred.Instrs[len(pred.Instrs)-1].(*ssa.If); ok {
+						for _, cf := range condFacts(iff.Cond, depth+1) {
+							out = append(out, condFact{cf.bo, -1, cf.falseEdge})
+						}
+					}
+				}
+			}
+		}
+		return out
+	}
+	return nil
 }
